@@ -275,13 +275,18 @@ def _opt(r):
     return None if int(r["d"]) == 0 else float(fr(r))
 
 
-def build_joint(js: dict):
-    """Real FitSettings list + call arguments for a FitJoint.tla scenario. Returns (routine, to_fit, kwargs, p0)."""
+def build_joint(js: dict, mixed: bool = False, defaults: dict | None = None):
+    """Real settings list + call arguments for a FitJoint.tla scenario. Returns (routine, to_fit, kwargs, p0).
+
+    mixed: fit.joint_mixed with MixedSettings (each carrying the shipped residual function of its kind).
+    defaults: the call's shared defaults ([y0, loss] as in the payload); default: the scenario's own."""
     import pandas as pd
     from mxlpy import Model, fit, make_protocol
-    from mxlpy.fit import losses
+    from mxlpy.fit import losses, routines
 
     kind = js["kind"]
+    stem = {"tc": "time_course", "ptc": "protocol_time_course", "ssc": "steady_state"}[kind]
+    unit = 1.0 if kind == "ssc" else LN2
     to_fit = []
     for e, data in zip(js["exps"], js["data"]):
         m = Model()
@@ -290,6 +295,9 @@ def build_joint(js: dict):
             m.add_parameters({"k1": float(js["jt"]), "k2": 1.0})
             m.add_reaction("v1", mass_action, args=["k1", "x1"], stoichiometry={"x1": -1.0, "x2": 1.0})
             m.add_reaction("v2", mass_action, args=["k2", "x2"], stoichiometry={"x2": -1.0, "x1": 1.0})
+            if e.get("rich"):       # the extra drain: a second forward step with its own constant k4
+                m.add_parameter("k4", float(js["j4t"]))
+                m.add_reaction("v4", mass_action, args=["k4", "x1"], stoichiometry={"x1": -1.0, "x2": 1.0})
             d = pd.Series({"x1": float(fr(data[0][0])), "x2": float(fr(data[0][1]))})
         else:
             a0 = js["A"] if kind == "tc" else js["prot"][0]["A"]
@@ -297,18 +305,35 @@ def build_joint(js: dict):
             m.add_parameters({"a1": float(fr(a0)) * LN2, "k1": float(js["jt"]) * LN2})
             m.add_reaction("in1", const, args=["a1"], stoichiometry={"x1": 1.0})
             m.add_reaction("out1", mass_action, args=["k1", "x1"], stoichiometry={"x1": -1.0})
+            if e.get("rich"):
+                m.add_parameter("k4", float(js["j4t"]) * LN2)
+                m.add_reaction("out4", mass_action, args=["k4", "x1"], stoichiometry={"x1": -1.0})
             d = pd.DataFrame({"x1": [float(fr(v)) for v in data[0]]}, index=[float(t) for t in js["times"]])
         y0 = _opt(e["y0"])
         kw = {}
         if kind == "ptc":
             kw["protocol"] = make_protocol([(float(s["dur"]), {"a1": float(fr(s["A"])) * LN2}) for s in js["prot"]])
-        to_fit.append(fit.FitSettings(model=m, data=d, y0=None if y0 is None else {"x1": y0},
-                                      loss_fn=None if e["loss"] == "none" else getattr(losses, e["loss"]), **kw))
-    y0d = _opt(js["dflt"]["y0"])
-    kwargs = {"y0": None if y0d is None else {"x1": y0d}, "loss_fn": getattr(losses, js["dflt"]["loss"])}
-    routine = {"tc": "joint_time_course", "ptc": "joint_protocol_time_course", "ssc": "joint_steady_state"}[kind]
-    p0 = {"k1": float(js["jc"]) * (1.0 if kind == "ssc" else LN2)}
+        common = dict(model=m, data=d, y0=None if y0 is None else {"x1": y0},
+                      loss_fn=None if e["loss"] == "none" else getattr(losses, e["loss"]), **kw)
+        if mixed:
+            to_fit.append(fit.MixedSettings(residual_fn=getattr(routines, f"{stem}_residual"), **common))
+        else:
+            to_fit.append(fit.FitSettings(**common))
+    dflt = defaults or js["dflt"]
+    y0d = _opt(dflt["y0"])
+    kwargs = {"y0": None if y0d is None else {"x1": y0d}, "loss_fn": getattr(losses, dflt["loss"])}
+    routine = "joint_mixed" if mixed else f"joint_{stem}"
+    p0 = {"k1": float(js["jc"]) * unit}
+    if js.get("anyrich"):
+        p0["k4"] = float(js["j4c"]) * unit
     return routine, to_fit, kwargs, p0
+
+
+def settings_view(to_fit: list) -> list:
+    """What the caller wrote into the settings objects (the fields a joint routine must not touch)."""
+    return [{"y0": None if s.y0 is None else dict(s.y0), "loss_fn": getattr(s.loss_fn, "__name__", None) if s.loss_fn else None,
+             "integrator": None if s.integrator is None else repr(s.integrator),
+             "protocol": None if s.protocol is None else s.protocol.to_json(), "data": s.data.to_json()} for s in to_fit]
 
 
 # ---- ensemble / carousel fits (FitEnsemble.tla) -------------------------------------------------------
